@@ -24,8 +24,8 @@ const c18Rule = "case = (epoch length N, start block, percentage, non-decreasing
 type c18Block struct{ ch chan types.EventNewBlock }
 
 func (b *c18Block) Subscribe(string) <-chan types.EventNewBlock { return b.ch }
-func (b *c18Block) GetCurrentBlockNumber() uint64                { return 0 }
-func (b *c18Block) String() string                               { return "fake" }
+func (b *c18Block) GetCurrentBlockNumber() uint64               { return 0 }
+func (b *c18Block) String() string                              { return "fake" }
 
 type c18Ev struct {
 	Epoch uint64
